@@ -368,6 +368,30 @@ def check_raii(ctx, tu, info, mut):
                            where=f.nloc(w['node']), key_detail='manual counter')
                 elif w['path'][-1:] == ('.queueEmptyCounter',) and w['how'] == 'guard':
                     ctx.ob('C09.R', f, 'the in-dispatch counter is changed only through CounterGuard (restored during unwinding)', True, key_detail='manual counter')
+    # scope-exit objects run on the exception path too. One that hands nodes to the free list is right only if the nodes are EMPTY
+    # whenever it can run - but a listener / predicate throwing half-way leaves the rest of the batch FULL: those slots would enter the
+    # free list uncleared, and the next enqueue that recycles one overwrites a live event (its arguments are never destroyed)
+    from .qcommon import invoke_calls, ADD_METHODS
+    for f in tu.fns:
+        if f.outermost().skey.split('::')[0] not in ('EventQueueBase', 'HeterEventQueueBase') or f.kind == 'lambda':
+            continue
+        for bid, blk in f.blocks.items():
+            for idx, e in enumerate(blk['elems']):
+                if e['k'] != 'autodtor' or not isinstance(e.get('c'), int) or e['c'] >= len(tu.decls):
+                    continue
+                g = tu.by_id.get((tu.decls[e['c']] or {}).get('fid', -1))
+                if g is None:
+                    continue
+                recycles = [w for w in info.writes(g) if w['path'][-1:] == ('.freeList',) and w['how'].startswith('call:') and w['how'][5:].split('::')[-1] in ADD_METHODS]
+                if not recycles:
+                    continue
+                vd = f.var_decls().get(e.get('var'))
+                born = f.pos(vd['stmt']) if vd and vd.get('stmt') else None
+                user = [n for n in invoke_calls(info, f) if born and f.pos_reaches(born, f.pos(n))]
+                ctx.ob('C09.R', f, 'no scope-exit object recycles nodes while user code can still throw with the batch half processed', not user,
+                       detail='`%s` (destructor %s) moves nodes into freeList on every exit; user code at %s runs during its lifetime: on an '
+                              'exception the slots that were not yet cleared enter the free list FULL' % (e.get('name'), g.skey, ', '.join(f.nloc(n) for n in user[:2])),
+                       key_detail='recycle on unwind')
     for f in tu.fns:
         if f.skey in TRAVERSAL_FNS:
             ws = [w for w in mut.observable_writes(f)]
